@@ -2,6 +2,7 @@ package main
 
 import (
 	"fmt"
+	"go/ast"
 	"go/types"
 	"sort"
 	"strings"
@@ -487,10 +488,43 @@ func (c *FnCtx) applyModifiesEnv(fr *Frame, st *State, env *SpecEnv, ct *FuncCon
 		default:
 			func() {
 				defer c.recoverSpec(m)
+				if call, ok := m.Expr.(*ast.CallExpr); ok {
+					if id, ok := call.Fun.(*ast.Ident); ok && id.Name == "atomic" && len(call.Args) == 1 {
+						c.havocAtomic(st, env, call.Args[0])
+						return
+					}
+				}
 				loc := env.evalLoc(m.Expr)
 				c.havocLoc(st, loc, 0)
 			}()
 		}
+	}
+}
+
+// havocAtomic: `modifies atomic(x)`: the callee performs atomic actions on x.
+func (c *FnCtx) havocAtomic(st *State, env *SpecEnv, x ast.Expr) {
+	loc := env.evalLoc(x)
+	var t *atomicTarget
+	var ok bool
+	if structOf(loc.T) != nil {
+		t, ok = c.atomicTargetOf(Sc{c.subRef(loc)}, loc.T)
+	} else {
+		t, ok = c.atomicTargetOf(Ad{Loc: loc}, nil)
+	}
+	if !ok {
+		env.fail("atomic(): not an atomic location")
+	}
+	v := c.vc.Fresh("mod$atomic", t.sort)
+	if t.sort == SInt {
+		c.vc.Assert(c.typeRange(v, t.typ))
+	}
+	c.atomicWrite(st, t, v)
+	for _, g := range []struct {
+		n string
+		s Sort
+	}{{"atomic$adds$", t.sort}, {"atomic$stores$", SInt}, {"atomic$ops$", SInt}} {
+		h := c.heapGet(st, g.n+t.family, SArr(SInt, g.s))
+		c.heapSet(st, g.n+t.family, c.vc.Name("g", Store(h, t.idx, c.vc.Fresh("mod$ghost", g.s))))
 	}
 }
 
@@ -680,6 +714,17 @@ func (c *FnCtx) buildFrameSpec(fr *Frame, st *State) {
 		default:
 			func() {
 				defer c.recoverSpec(m)
+				if call, ok := m.Expr.(*ast.CallExpr); ok {
+					if id, ok := call.Fun.(*ast.Ident); ok && id.Name == "atomic" && len(call.Args) == 1 {
+						loc := env.evalLoc(call.Args[0])
+						if structOf(loc.T) == nil {
+							for _, lf := range c.leaves(loc.T) {
+								fs.locs[loc.Prefix+lf.Suffix] = append(fs.locs[loc.Prefix+lf.Suffix], *loc)
+							}
+						}
+						return
+					}
+				}
 				loc := env.evalLoc(m.Expr)
 				if structOf(loc.T) != nil {
 					fs.objs = append(fs.objs, c.subRef(loc))
